@@ -561,6 +561,7 @@ func main() {
 		scenario{Name: "r2owa-i2rw-gap2-k1", SendOp: "r2owa", K: 1, Tight: 2},
 		scenario{Name: "r2owa-i2rw-gap3-k1", SendOp: "r2owa", K: 1, Tight: 3},
 		// one producer with three outputs, one consumer per output (output selector wider than the input selector)
+		scenario{Name: "two-outputs", SendOp: "r2owa", K: 2, MultiOut: 2},
 		scenario{Name: "three-outputs", SendOp: "r2owa", K: 3, MultiOut: 3},
 		// fan-in: two producers, one consumer reading both bonds back to back / with one instruction in between
 		scenario{Name: "fan-in-2-back-to-back", SendOp: "r2owa", K: 1, FanIn: 1},
